@@ -197,4 +197,182 @@ theorem rename_file_ok (fs fs1 : FS) (src dst : Name) (i : Ino) (hsrc : fs.entry
     | missing p => cases p <;> simp [hd, hdev] at hr
     | _ => simp [hd, hdev] at hr
 
+/-- removing (or replacing) a symbolic link `r → t` does not disturb what its target `t`
+    resolves to: the resolution of `t` cannot pass through `r` again without looping -/
+theorem resolveN_upd_symlink_source (e : Name → Entry) (r t : Name) (v : Entry)
+    (hr : e r = .symlink t) (x : Name) (i : Ino) (g : Nat)
+    (h : resolveN e g t = .file x i) : resolveN (upd e r v) g t = .file x i := by
+  induction g using Nat.strongRecOn with
+  | _ g ih =>
+    by_cases hex : ∃ f', f' ≤ g ∧ resolveN e f' r = .file x i
+    · obtain ⟨f', hle, hf'⟩ := hex
+      cases f' with
+      | zero => simp [resolveN] at hf'
+      | succ f'' =>
+        simp only [resolveN, hr] at hf'
+        have := ih f'' (by omega) hf'
+        exact resolveN_mono _ _ _ _ this (by simp) g (by omega)
+    · exact resolveN_upd_unreached e r v g t x i h (fun f' hle hf' => hex ⟨f', hle, hf'⟩)
+
+/-- a successful rename of a symbolic link to another name moves the link -/
+theorem rename_symlink_ok (fs fs1 : FS) (src dst t : Name) (hsrc : fs.entry src = .symlink t)
+    (hne : src ≠ dst) (hr : rename fs src dst = .ok fs1) : fs1 = moveEntry fs src dst := by
+  unfold rename at hr
+  rw [hsrc] at hr
+  by_cases hdev : fs.dev src = fs.dev dst
+  · cases hd : fs.entry dst with
+    | missing p => cases p <;> simp [hd, hdev, hne] at hr <;> exact hr.symm
+    | dir => simp [hd, hdev] at hr
+    | file k => simp [hd, hdev, hne] at hr; exact hr.symm
+    | symlink t' => simp [hd, hdev, hne] at hr; exact hr.symm
+  · cases hd : fs.entry dst with
+    | missing p => cases p <;> simp [hd, hdev] at hr
+    | _ => simp [hd, hdev] at hr
+
+/-- renaming a symlink source onto a destination that does not resolve to the source's inode
+    leaves the bytes reachable through `dst` -/
+theorem rename_symlink_content (fs fs1 : FS) (src dst t x : Name) (i : Ino)
+    (hsrc : fs.entry src = .symlink t) (hres : resolve fs src = .file x i)
+    (hnd : ∀ y, resolve fs dst ≠ .file y i)
+    (hr : rename fs src dst = .ok fs1) : content fs1 dst = some (fs.data i) := by
+  have hne : src ≠ dst := by
+    intro h; subst h; exact hnd x hres
+  have := rename_symlink_ok fs fs1 src dst t hsrc hne hr
+  subst this
+  simp only [resolve] at hres hnd
+  -- t resolves to inode i with one link less of fuel
+  have ht : resolveN fs.entry maxLinks t = .file x i := by
+    simpa [resolveN, hsrc] using hres
+  -- step 1: put the link at dst — dst is not on t's chain (it would resolve to inode i)
+  have h1 : resolveN (upd fs.entry dst (.symlink t)) maxLinks t = .file x i := by
+    apply resolveN_upd_unreached _ _ _ _ _ _ _ ht
+    intro f' hf' h
+    exact hnd x (resolveN_mono _ _ _ _ h (by simp) _ (by omega))
+  -- step 2: remove the link at src
+  have h2 := resolveN_upd_symlink_source (upd fs.entry dst (.symlink t)) src t (.missing .ok)
+    (by simp [upd, hne, hsrc]) x i maxLinks h1
+  have hne' : dst ≠ src := fun h => hne h.symm
+  simp [content, resolve, resolveN, moveEntry, upd, hne', hsrc]
+  rw [h2]
+
+/-! ## MoveFile without its guard (`moveFilePinned`): the three ways it can go -/
+
+/-- source name is a regular-file entry: rename path or fall-back, content preserved -/
+theorem movePinned_direct (fs : FS) (src dst : Name) (i : Ino) (hf : Fresh fs)
+    (hsrc : fs.entry src = .file i) :
+    match moveFilePinned fs src dst with
+    | (fs', .ok _) => content fs' dst = some (fs.data i)
+    | (fs', .error _) => fs' = fs := by
+  have hres : resolve fs src = .file src i := by simp [resolve, resolveN, hsrc]
+  cases hr : rename fs src dst with
+  | ok fs1 =>
+    simp [moveFilePinned, runMove, pinnedMoveProg, List.foldl, moveStep, hr]
+    exact rename_file_ok fs fs1 src dst i hsrc hr
+  | error e =>
+    have hspec := copyFile_spec fs src dst src i hf hres
+    cases hc : copyFile fs src dst with
+    | mk fs1 r =>
+      rw [hc] at hspec
+      cases r with
+      | error e2 =>
+        simp only at hspec
+        simp [moveFilePinned, runMove, pinnedMoveProg, List.foldl, moveStep, hr, hc, hspec]
+      | ok n =>
+        simp only [CopyOk] at hspec
+        obtain ⟨_, hdi, _, hent, y, k, hki, hy, hdk⟩ := hspec
+        have hs1 : fs1.entry src = .file i := by rw [hent src (by simp [hsrc]), hsrc]
+        simp [moveFilePinned, runMove, pinnedMoveProg, List.foldl, moveStep, hr, hc, unlink, hs1]
+        simp only [resolve] at hy
+        have hyk := resolveN_file_entry _ _ _ _ _ hy
+        have hne : y ≠ src := by
+          intro e; subst e; rw [hs1] at hyk; simp at hyk; exact hki hyk.symm
+        have := resolveN_upd_other fs1.entry src (.missing .ok) (by simp [hs1]) _ _ _ _ hne hy
+        simp [content, resolve, this, hdk]
+
+/-- whenever rename fails, for a source reached through any chain of symlinks -/
+theorem movePinned_fallback (fs : FS) (src dst : Name) (b : Bytes) (e : Err) (hf : Fresh fs)
+    (hs : content fs src = some b) (hr : rename fs src dst = .error e) :
+    match moveFilePinned fs src dst with
+    | (fs', .ok _) => content fs' dst = some b
+    | (fs', .error _) => fs' = fs := by
+  unfold content at hs
+  cases hsrc : resolve fs src with
+  | file x i =>
+    simp [hsrc] at hs
+    subst hs
+    have hspec := copyFile_spec fs src dst x i hf hsrc
+    cases hc : copyFile fs src dst with
+    | mk fs1 r =>
+      rw [hc] at hspec
+      cases r with
+      | error e2 =>
+        simp only at hspec
+        simp [moveFilePinned, runMove, pinnedMoveProg, List.foldl, moveStep, hr, hc, hspec]
+      | ok n =>
+        simp only [CopyOk] at hspec
+        obtain ⟨_, hdi, _, hent, y, k, hki, hy, hdk⟩ := hspec
+        simp only [resolve] at hsrc hy
+        have hsrc1 := resolveN_entries_kept fs.entry fs1.entry hent _ _ _ _ hsrc
+        -- dst's chain never reaches the name `src`: it would end in inode i, not k
+        have hunreached : ∀ f', f' ≤ maxLinks + 1 → resolveN fs1.entry f' src ≠ .file y k := by
+          intro f' hf' h
+          have := resolveN_mono fs1.entry f' src _ h (by simp) (maxLinks + 1) hf'
+          rw [hsrc1] at this
+          simp at this
+          exact hki this.2.symm
+        have hdst2 := resolveN_upd_unreached fs1.entry src (.missing .ok) _ _ _ _ hy hunreached
+        -- the source name exists in fs1 (it resolves), so `os.Remove` succeeds
+        cases hes : fs.entry src with
+        | missing p => simp [resolveN, hes] at hsrc
+        | dir => simp [resolveN, hes] at hsrc
+        | file i' =>
+          have hs1 : fs1.entry src = .file i' := by rw [hent src (by simp [hes]), hes]
+          simp [moveFilePinned, runMove, pinnedMoveProg, List.foldl, moveStep, hr, hc, unlink, hs1]
+          simp [content, resolve, hdst2, hdk]
+        | symlink t =>
+          have hs1 : fs1.entry src = .symlink t := by rw [hent src (by simp [hes]), hes]
+          simp [moveFilePinned, runMove, pinnedMoveProg, List.foldl, moveStep, hr, hc, unlink, hs1]
+          simp [content, resolve, hdst2, hdk]
+  | _ => simp [hsrc] at hs
+
+/-! ## MoveFile with its guard = guard, then the unguarded order -/
+
+/-- the outcome of the unguarded event list does not depend on the identities / error left
+    behind by the guard statements -/
+theorem movePinned_eval (fs : FS) (src dst : Name) (sid did : Option Ident) (e0 : Option Err) :
+    let st := pinnedMoveProg.foldl (moveStep copyFile src dst)
+      { fs := fs, srcId := sid, dstId := did, err := e0 }
+    (st.fs, st.ret.getD (.error .other)) = moveFilePinned fs src dst := by
+  cases hr : rename fs src dst with
+  | ok fs1 => simp [moveFilePinned, runMove, pinnedMoveProg, List.foldl, moveStep, hr]
+  | error e =>
+    cases hc : copyFile fs src dst with
+    | mk fs1 r =>
+      cases r with
+      | error e2 => simp [moveFilePinned, runMove, pinnedMoveProg, List.foldl, moveStep, hr, hc]
+      | ok n =>
+        cases hu : unlink fs1 src <;>
+          simp [moveFilePinned, runMove, pinnedMoveProg, List.foldl, moveStep, hr, hc, hu]
+
+/-- `moveFile` is: same-file check on `stat src`/`stat dst`, otherwise `moveFilePinned` -/
+theorem moveFile_guard (fs : FS) (src dst : Name) :
+    moveFile fs src dst =
+      match stat fs src, stat fs dst with
+      | .ok a, .ok b => if a = b then (fs, .error .sameFile) else moveFilePinned fs src dst
+      | _, _ => moveFilePinned fs src dst := by
+  have key : ∀ st : MSt, moveProg.foldl (moveStep copyFile src dst) st =
+      pinnedMoveProg.foldl (moveStep copyFile src dst)
+        ([FsEv.statSrc, .statDst, .guardSameFile].foldl (moveStep copyFile src dst) st) := by
+    intro st; rfl
+  simp only [moveFile, runMove, key]
+  cases hs : stat fs src <;> cases hd : stat fs dst
+  all_goals simp only [List.foldl, moveStep, hs, hd]
+  · exact movePinned_eval fs src dst _ _ _
+  · exact movePinned_eval fs src dst _ _ _
+  · exact movePinned_eval fs src dst _ _ _
+  · rename_i a b
+    by_cases hab : a = b
+    · subst hab; simp [pinnedMoveProg, List.foldl, moveStep]
+    · simp only [hab, if_false]
+      exact movePinned_eval fs src dst _ _ _
 end Glb.Files
